@@ -23,7 +23,7 @@ func NewDumpStruct() *dumpStruct {
 
 // HandleDumpStruct 处理待打印的 struct
 func (d *dumpStruct) HandleDumpStruct(v reflect.Value, isSlice ...bool) *dumpStruct {
-	tv := reflect.Indirect(v)
+	tv := RemoveValuePtr(v) // 多级指针, 如: **T
 	if !tv.IsValid() {
 		d.buf.WriteString("null")
 		return d
